@@ -22,6 +22,7 @@ import (
 	"github.com/tink-crypto/tink-go/v2/internal/protoserialization"
 	kwpsubtle "github.com/tink-crypto/tink-go/v2/kwp/subtle"
 	"github.com/tink-crypto/tink-go/v2/tink"
+	"github.com/tink-crypto/tink-go/v2/verifharness/internal/aeadcase"
 	"github.com/tink-crypto/tink-go/v2/verifharness/internal/detrand"
 	"github.com/tink-crypto/tink-go/v2/verifharness/internal/evid"
 	"github.com/tink-crypto/tink-go/v2/verifharness/internal/gen"
@@ -146,25 +147,94 @@ func (c *sivCase) encryptChecked(t *rapid.T, pt, ad []byte) []byte {
 	want := c.expected(pt, ad)
 	got1, err := c.p.EncryptDeterministically(pt, ad)
 	if err != nil {
-		t.Fatalf("%v: EncryptDeterministically(pt=%x, ad=%x) failed: %v", c, pt, ad, err)
+		t.Fatalf("%v: EncryptDeterministically(pt=%s, ad=%s) failed: %v", c, hx(pt), hx(ad), err)
 	}
 	got2, err := c.p.EncryptDeterministically(append([]byte{}, pt...), append([]byte{}, ad...))
 	if err != nil || !bytes.Equal(got1, got2) {
-		t.Fatalf("%v: encryption of pt=%x ad=%x not deterministic: %x vs %x (%v)", c, pt, ad, got1, got2, err)
+		t.Fatalf("%v: encryption of pt=%s ad=%s not deterministic: %s vs %s (%v)", c, hx(pt), hx(ad), hx(got1), hx(got2), err)
 	}
 	if !bytes.Equal(got1, want) {
-		t.Fatalf("%v: EncryptDeterministically(pt=%x, ad=%x) = %x, prefix||RFC 5297 reference says %x", c, pt, ad, got1, want)
+		t.Fatalf("%v: EncryptDeterministically(pt=%s, ad=%s) = %s, prefix||RFC 5297 reference says %s", c, hx(pt), hx(ad), hx(got1), hx(want))
 	}
 	return got1
+}
+
+// hx prints byte strings in full up to 2 KiB (the ordinary mixture) and abbreviated beyond (size
+// class: the case is reproduced from the drawn seed and fill kind, printed by rapid).
+func hx(b []byte) string {
+	if len(b) <= 2100 {
+		return fmt.Sprintf("%x", b)
+	}
+	return fmt.Sprintf("%x..%x(%d bytes)", b[:32], b[len(b)-32:], len(b))
+}
+
+func xored(b []byte, v byte) []byte {
+	out := make([]byte, len(b))
+	for i := range b {
+		out[i] = b[i] ^ v
+	}
+	return out
+}
+
+// reusedBuffers: C08 is stated for plaintexts and associated data as byte strings. A caller that
+// keeps ONE plaintext buffer, ONE associated-data buffer and ONE ciphertext buffer and refills them
+// between calls on the same primitive object must get the RFC 5297 value of the bytes the buffers
+// hold at the time of each call, and a result it was handed earlier must keep its value when later
+// calls with other inputs are made. Each stage starts with values the object has not met.
+//
+//	Encrypt(ptbuf, adbuf) with (pt^0x11, ad^0x11), buffers ^0x33 in place, Encrypt again: both equal
+//	the reference, the first result unchanged after the second call;
+//	Decrypt(ctbuf, adbuf) with the first ciphertext, buffers overwritten with the second ciphertext
+//	and its associated data, Decrypt again: pt^0x11, then pt^0x22, the first result unchanged.
+func (c *sivCase) reusedBuffers(t *rapid.T, pt, ad []byte) {
+	if len(pt)+len(ad) == 0 {
+		return
+	}
+	ptbuf, adbuf := xored(pt, 0x11), xored(ad, 0x11)
+	ptA, adA := bytes.Clone(ptbuf), bytes.Clone(adbuf)
+	wantA := c.expected(ptbuf, adbuf)
+	ctA, err := c.p.EncryptDeterministically(ptbuf, adbuf)
+	if err != nil || !bytes.Equal(ctA, wantA) {
+		t.Fatalf("%v: EncryptDeterministically(pt=%s, ad=%s) = %s (%v), prefix||RFC 5297 reference says %s", c, hx(ptA), hx(adA), hx(ctA), err, hx(wantA))
+	}
+	for i := range ptbuf {
+		ptbuf[i] ^= 0x33
+	}
+	for i := range adbuf {
+		adbuf[i] ^= 0x33
+	}
+	wantB := c.expected(ptbuf, adbuf)
+	ctB, err := c.p.EncryptDeterministically(ptbuf, adbuf)
+	if err != nil || !bytes.Equal(ctB, wantB) {
+		t.Fatalf("%v: the caller's plaintext and associated-data buffers first held pt=%s ad=%s (encrypted correctly), then - every byte ^0x33 in place - pt=%s ad=%s: the second EncryptDeterministically on the same object = %s (%v), prefix||RFC 5297 reference says %s", c, hx(ptA), hx(adA), hx(ptbuf), hx(adbuf), hx(ctB), err, hx(wantB))
+	}
+	if !bytes.Equal(ctA, wantA) {
+		t.Fatalf("%v: the ciphertext returned for pt=%s ad=%s was %s; after encrypting pt=%s ad=%s on the same object the returned slice holds %s", c, hx(ptA), hx(adA), hx(wantA), hx(ptbuf), hx(adbuf), hx(ctA))
+	}
+	ctbuf, adbuf2 := bytes.Clone(wantA), bytes.Clone(adA)
+	p1, err := c.p.DecryptDeterministically(ctbuf, adbuf2)
+	if err != nil || !bytes.Equal(p1, ptA) {
+		t.Fatalf("%v: DecryptDeterministically(ct=%s, ad=%s) = %s (%v), want %s", c, hx(ctbuf), hx(adbuf2), hx(p1), err, hx(ptA))
+	}
+	copy(ctbuf, wantB)
+	copy(adbuf2, adbuf)
+	p2, err := c.p.DecryptDeterministically(ctbuf, adbuf2)
+	if err != nil || !bytes.Equal(p2, ptbuf) {
+		t.Fatalf("%v: the caller's ciphertext and associated-data buffers first held ct=%s ad=%s (decrypted correctly), then - overwritten in place - ct=%s ad=%s: the second DecryptDeterministically on the same object = %s (%v), want %s", c, hx(wantA), hx(adA), hx(ctbuf), hx(adbuf2), hx(p2), err, hx(ptbuf))
+	}
+	if !bytes.Equal(p1, ptA) {
+		t.Fatalf("%v: the plaintext returned for ct=%s ad=%s was %s; after decrypting ct=%s ad=%s on the same object the returned slice holds %s", c, hx(wantA), hx(adA), hx(ptA), hx(ctbuf), hx(adbuf2), hx(p1))
+	}
+	evid.Add("reused_buffer_stages", 2)
 }
 
 func (c *sivCase) decryptMust(t *rapid.T, what string, ct, ad, wantPT []byte) {
 	got, err := c.p.DecryptDeterministically(ct, ad)
 	if err != nil {
-		t.Fatalf("%v: DecryptDeterministically rejects %s ct=%x ad=%x: %v", c, what, ct, ad, err)
+		t.Fatalf("%v: DecryptDeterministically rejects %s ct=%s ad=%s: %v", c, what, hx(ct), hx(ad), err)
 	}
 	if !bytes.Equal(got, wantPT) {
-		t.Fatalf("%v: DecryptDeterministically(%s ct=%x, ad=%x) = %x, want %x", c, what, ct, ad, got, wantPT)
+		t.Fatalf("%v: DecryptDeterministically(%s ct=%s, ad=%s) = %s, want %s", c, what, hx(ct), hx(ad), hx(got), hx(wantPT))
 	}
 }
 
@@ -174,6 +244,21 @@ func TestSIV(t *testing.T) {
 		c := drawSIV(rt, sivRoutes)
 		pt := gen.BytesOrNil(rt, "pt", 2048)
 		ad := gen.BytesOrNil(rt, "ad", 2048)
+		if n, isBig := aeadcase.BigLen(rt, "siv", 300); isBig {
+			// size class: page / buffer boundaries and 1 MiB for the plaintext, the associated data or both
+			which := rapid.IntRange(0, 3).Draw(rt, "bigwhich")
+			if which != 1 {
+				pt = gen.BytesN(rt, "bigpt", n)
+			}
+			if which == 1 {
+				ad = gen.BytesN(rt, "bigad", n)
+			} else if which == 2 {
+				ad = gen.BytesN(rt, "bigad", aeadcase.BigLens[rapid.IntRange(0, 5).Draw(rt, "bigadlen")])
+			}
+			evid.Add("size_class_cases", 1)
+		}
+		// the reference costs ~50 ms per MiB and candidate: long cases take a sample of the candidates
+		big := len(pt) >= 4096 || len(ad) >= 4096
 		// Buffer layout: in a quarter of the cases plaintext and associated data are adjacent views of
 		// ONE record buffer (pt = rec[:n], ad = rec[n:]), as a caller encrypting a field of a record
 		// with the rest as context would pass them. The property is about values, not layouts.
@@ -183,16 +268,21 @@ func TestSIV(t *testing.T) {
 			pt, ad = rec[:len(pt)], rec[len(pt):]
 			first := c.encryptChecked(rt, pt, ad)
 			if !bytes.Equal(pt, wantPT) || !bytes.Equal(ad, wantAD) {
-				rt.Fatalf("%v: EncryptDeterministically changed its inputs (plaintext and associated data are adjacent views of one buffer): pt %x -> %x, ad %x -> %x", c, wantPT, pt, wantAD, ad)
+				rt.Fatalf("%v: EncryptDeterministically changed its inputs (plaintext and associated data are adjacent views of one buffer): pt %s -> %s, ad %s -> %s", c, hx(wantPT), hx(pt), hx(wantAD), hx(ad))
 			}
 			again, err := c.p.EncryptDeterministically(pt, ad)
 			if err != nil || !bytes.Equal(again, first) {
-				rt.Fatalf("%v: pt=%x ad=%x (adjacent views of one buffer): two encryptions of equal inputs differ: %x vs %x (%v)", c, wantPT, wantAD, first, again, err)
+				rt.Fatalf("%v: pt=%s ad=%s (adjacent views of one buffer): two encryptions of equal inputs differ: %s vs %s (%v)", c, hx(wantPT), hx(wantAD), hx(first), hx(again), err)
 			}
 			evid.Add("shared_record_cases", 1)
 		}
 		ct := c.encryptChecked(rt, pt, ad)
 		c.decryptMust(rt, "own", ct, ad, pt)
+		ctValue := bytes.Clone(ct) // (equal to the reference value: encryptChecked)
+		c.reusedBuffers(rt, pt, ad)
+		if !bytes.Equal(ct, ctValue) {
+			rt.Fatalf("%v: the ciphertext returned for pt=%s ad=%s was %s; after later calls with other inputs on the same object the returned slice holds %s", c, hx(pt), hx(ad), hx(ctValue), hx(ct))
+		}
 		// nil and empty are the same string
 		if len(ad) == 0 {
 			for _, ad2 := range [][]byte{nil, {}} {
@@ -217,87 +307,120 @@ func TestSIV(t *testing.T) {
 			refPT, refOK := c.refOpen(cand, a)
 			got, err := c.p.DecryptDeterministically(cand, a)
 			if (err == nil) != refOK {
-				rt.Fatalf("%v: pt=%x ad=%x: candidate kind=%s ct'=%x ad'=%x: Tink err=%v but reference accepts=%v", c, pt, ad, kind, cand, a, err, refOK)
+				rt.Fatalf("%v: pt=%s ad=%s: candidate kind=%s ct'=%s ad'=%s: Tink err=%v but reference accepts=%v", c, hx(pt), hx(ad), kind, hx(cand), hx(a), err, refOK)
 			}
 			if refOK {
 				accepted++
 				if !bytes.Equal(got, refPT) {
-					rt.Fatalf("%v: candidate kind=%s ct'=%x ad'=%x: Tink returns %x, reference %x", c, kind, cand, a, got, refPT)
+					rt.Fatalf("%v: candidate kind=%s ct'=%s ad'=%s: Tink returns %s, reference %s", c, kind, hx(cand), hx(a), hx(got), hx(refPT))
 				}
 			}
 		}
 		plen := len(c.prefix())
-		for i := 0; i < plen+16; i++ { // every byte of prefix and SIV, one bit each
-			cand := append([]byte{}, ct...)
-			cand[i] ^= 1 << (uint(i) % 8)
-			try("flip-head", cand, ad)
-		}
-		if len(ct) > plen+16 {
-			bit := rapid.IntRange((plen+16)*8, len(ct)*8-1).Draw(rt, "bodybit")
-			cand := append([]byte{}, ct...)
-			cand[bit/8] ^= 1 << (bit % 8)
-			try("flip-body", cand, ad)
-		}
-		if len(ct) <= 64 {
-			for cut := 0; cut < len(ct); cut++ {
-				try("truncate", ct[:cut], ad)
+		if big {
+			// size class: a sample of the candidate kinds (the reference costs ~0.2 s per MiB and candidate)
+			flip := func(i int) []byte {
+				cand := append([]byte{}, ct...)
+				cand[i] ^= 1 << (uint(i) % 8)
+				return cand
+			}
+			try("flip-head", flip(rapid.IntRange(0, plen+15).Draw(rt, "bighead")), ad)
+			before := accepted
+			pm := gen.Mutate(rt, "ptmut", pt)
+			am := gen.Mutate(rt, "admut", ad)
+			try("reenc-both", c.expected(pm.Out, am.Out), am.Out)
+			if accepted-before != 1 {
+				rt.Fatalf("harness: accept-side candidate was not accepted by the reference")
+			}
+			if len(pt) < 65535 && len(ad) < 65535 {
+				try("flip-head", flip(plen+15), ad)
+				if len(ct) > plen+16 {
+					try("flip-body", flip(rapid.IntRange(plen+16, len(ct)-1).Draw(rt, "bodybyte")), ad)
+				}
+				try("truncate", ct[:len(ct)-1], ad)
+				try("extend", append(append([]byte{}, ct...), rapid.Byte().Draw(rt, "extfill")), ad)
+				try("ad-"+am.Kind, ct, am.Out)
+				if plen > 0 {
+					try("other-id", append(tk.Prefix(c.variant, c.id+1), ct[plen:]...), ad)
+				} else {
+					try("added-prefix", append(tk.Prefix(tk.Tink, c.id), ct...), ad)
+				}
+				blob := gen.BytesN(rt, "blob0", rapid.IntRange(0, 40).Draw(rt, "bloblen0"))
+				try("prefix+blob", append(c.prefix(), blob...), ad)
 			}
 		} else {
-			cuts := []int{0, plen, plen + 15, plen + 16, plen + 17, len(ct) - 16, len(ct) - 1}
-			if plen > 0 {
-				cuts = append(cuts, plen-1, 1)
+			for i := 0; i < plen+16; i++ { // every byte of prefix and SIV, one bit each
+				cand := append([]byte{}, ct...)
+				cand[i] ^= 1 << (uint(i) % 8)
+				try("flip-head", cand, ad)
 			}
-			for i := 0; i < 3; i++ {
-				cuts = append(cuts, rapid.IntRange(0, len(ct)-1).Draw(rt, fmt.Sprintf("cut%d", i)))
+			if len(ct) > plen+16 {
+				bit := rapid.IntRange((plen+16)*8, len(ct)*8-1).Draw(rt, "bodybit")
+				cand := append([]byte{}, ct...)
+				cand[bit/8] ^= 1 << (bit % 8)
+				try("flip-body", cand, ad)
 			}
-			for _, cut := range cuts {
-				try("truncate", ct[:cut], ad)
-			}
-		}
-		extFill := rapid.Byte().Draw(rt, "extfill")
-		for ext := 1; ext <= 17; ext++ {
-			try("extend", append(append([]byte{}, ct...), bytes.Repeat([]byte{extFill}, ext)...), ad)
-		}
-		if plen > 0 {
-			try("dropped-prefix", ct[plen:], ad)
-			for _, v := range sivVariants {
-				if p := tk.Prefix(v, c.id); !bytes.Equal(p, ct[:plen]) {
-					try("prefix-of-"+v, append(append([]byte{}, p...), ct[plen:]...), ad)
+			if len(ct) <= 64 {
+				for cut := 0; cut < len(ct); cut++ {
+					try("truncate", ct[:cut], ad)
+				}
+			} else {
+				cuts := []int{0, plen, plen + 15, plen + 16, plen + 17, len(ct) - 16, len(ct) - 1}
+				if plen > 0 {
+					cuts = append(cuts, plen-1, 1)
+				}
+				for i := 0; i < 3; i++ {
+					cuts = append(cuts, rapid.IntRange(0, len(ct)-1).Draw(rt, fmt.Sprintf("cut%d", i)))
+				}
+				for _, cut := range cuts {
+					try("truncate", ct[:cut], ad)
 				}
 			}
-			try("other-id", append(tk.Prefix(c.variant, c.id+1), ct[plen:]...), ad)
-			try("other-id", append(tk.Prefix(c.variant, c.id^0x80000000), ct[plen:]...), ad)
-		} else {
-			try("added-prefix", append(tk.Prefix(tk.Tink, c.id), ct...), ad)
-			try("added-prefix", append(tk.Prefix(tk.Crunchy, c.id), ct...), ad)
-		}
-		am := gen.Mutate(rt, "admut", ad)
-		try("ad-"+am.Kind, ct, am.Out)
-		if len(ad) > 0 {
-			try("ad-nil", ct, nil)
-		}
-		// pt and ad swapped roles, and AD folded into the plaintext
-		try("ad-as-pt", c.expected(ad, pt), ad)
-		cm := gen.Mutate(rt, "ctmut", ct)
-		try("ct-"+cm.Kind, cm.Out, ad)
-		for i := 0; i < 3; i++ { // arbitrary strings, including shorter than one block
-			blob := gen.BytesN(rt, fmt.Sprintf("blob%d", i), rapid.IntRange(0, 40).Draw(rt, fmt.Sprintf("bloblen%d", i)))
-			try("blob", blob, ad)
-			try("prefix+blob", append(c.prefix(), blob...), ad)
-		}
-		// accept side: reference encryptions of related messages must be accepted
-		before := accepted
-		pm := gen.Mutate(rt, "ptmut", pt)
-		for _, ac := range []struct {
-			kind   string
-			pt, ad []byte
-		}{{"reenc-pt-" + pm.Kind, pm.Out, ad}, {"reenc-ad-" + am.Kind, pt, am.Out}, {"reenc-both", pm.Out, am.Out}, {"reenc-empty-pt", nil, ad}, {"reenc-empty-ad", pt, nil}} {
-			cand := c.expected(ac.pt, ac.ad)
-			try(ac.kind, cand, ac.ad)
-			c.decryptMust(rt, ac.kind, cand, ac.ad, ac.pt)
-		}
-		if accepted-before != 5 {
-			rt.Fatalf("harness: accept-side candidates were not accepted by the reference (%d of 5)", accepted-before)
+			extFill := rapid.Byte().Draw(rt, "extfill")
+			for ext := 1; ext <= 17; ext++ {
+				try("extend", append(append([]byte{}, ct...), bytes.Repeat([]byte{extFill}, ext)...), ad)
+			}
+			if plen > 0 {
+				try("dropped-prefix", ct[plen:], ad)
+				for _, v := range sivVariants {
+					if p := tk.Prefix(v, c.id); !bytes.Equal(p, ct[:plen]) {
+						try("prefix-of-"+v, append(append([]byte{}, p...), ct[plen:]...), ad)
+					}
+				}
+				try("other-id", append(tk.Prefix(c.variant, c.id+1), ct[plen:]...), ad)
+				try("other-id", append(tk.Prefix(c.variant, c.id^0x80000000), ct[plen:]...), ad)
+			} else {
+				try("added-prefix", append(tk.Prefix(tk.Tink, c.id), ct...), ad)
+				try("added-prefix", append(tk.Prefix(tk.Crunchy, c.id), ct...), ad)
+			}
+			am := gen.Mutate(rt, "admut", ad)
+			try("ad-"+am.Kind, ct, am.Out)
+			if len(ad) > 0 {
+				try("ad-nil", ct, nil)
+			}
+			// pt and ad swapped roles, and AD folded into the plaintext
+			try("ad-as-pt", c.expected(ad, pt), ad)
+			cm := gen.Mutate(rt, "ctmut", ct)
+			try("ct-"+cm.Kind, cm.Out, ad)
+			for i := 0; i < 3; i++ { // arbitrary strings, including shorter than one block
+				blob := gen.BytesN(rt, fmt.Sprintf("blob%d", i), rapid.IntRange(0, 40).Draw(rt, fmt.Sprintf("bloblen%d", i)))
+				try("blob", blob, ad)
+				try("prefix+blob", append(c.prefix(), blob...), ad)
+			}
+			// accept side: reference encryptions of related messages must be accepted
+			before := accepted
+			pm := gen.Mutate(rt, "ptmut", pt)
+			for _, ac := range []struct {
+				kind   string
+				pt, ad []byte
+			}{{"reenc-pt-" + pm.Kind, pm.Out, ad}, {"reenc-ad-" + am.Kind, pt, am.Out}, {"reenc-both", pm.Out, am.Out}, {"reenc-empty-pt", nil, ad}, {"reenc-empty-ad", pt, nil}} {
+				cand := c.expected(ac.pt, ac.ad)
+				try(ac.kind, cand, ac.ad)
+				c.decryptMust(rt, ac.kind, cand, ac.ad, ac.pt)
+			}
+			if accepted-before != 5 {
+				rt.Fatalf("harness: accept-side candidates were not accepted by the reference (%d of 5)", accepted-before)
+			}
 		}
 		evid.Add("siv_candidates", int64(candidates))
 		evid.Add("siv_accept_side", int64(accepted))
@@ -310,6 +433,8 @@ func TestSIV(t *testing.T) {
 
 func sivLenClass(n int) string {
 	switch {
+	case n >= 4096:
+		return ">=4096"
 	case n == 0:
 		return "0"
 	case n < 16:
@@ -376,6 +501,9 @@ func TestXOREnd(t *testing.T) {
 		kl := rapid.SampledFrom([]int{16, 24, 32}).Draw(rt, "keylen")
 		keyBytes := gen.BytesN(rt, "key", kl)
 		long := rapid.IntRange(81, 2048).Draw(rt, "longlen")
+		if n, big := aeadcase.BigLen(rt, "long", 300); big {
+			long = n // size class: page / buffer boundaries and 1 MiB
+		}
 		data := gen.BytesN(rt, "data", long)
 		last := gen.BytesN(rt, "last", 16)
 		m, err := aescmac.New(append([]byte{}, keyBytes...))
@@ -402,7 +530,7 @@ func TestXOREnd(t *testing.T) {
 			}
 			want := sym.CMAC(keyBytes, x)
 			if err != nil || !bytes.Equal(got, want) {
-				rt.Fatalf("aescmac key=%x: XOREndAndCompute(data=%x (len %d), last=%x) = %x (%v), reference CMAC(data xorend last) = %x", keyBytes, data[:n], n, last, got, err, want)
+				rt.Fatalf("aescmac key=%x: XOREndAndCompute(data=%s (len %d), last=%x) = %x (%v), reference CMAC(data xorend last) = %x", keyBytes, hx(data[:n]), n, last, got, err, want)
 			}
 			if !bytes.Equal(d, data[:n]) || !bytes.Equal(l, last) {
 				// not demanded by C08; recorded only
@@ -410,7 +538,16 @@ func TestXOREnd(t *testing.T) {
 			}
 		}
 		evid.Add("xorend_lengths", int64(len(lens)))
-		evid.Case(fmt.Sprintf("xorend/aes%d/long%%16=%d", kl*8, long%16), true, evid.NewH().B(keyBytes).B(data).B(last).Sum(), func() any {
+		sizeClass := ""
+		if long >= 4096 {
+			sizeClass = "/long>=4096"
+			// Compute over the whole long input as well (the loop above stops at 80 bytes)
+			want := sym.CMAC(keyBytes, data)
+			if got := m.Compute(append([]byte{}, data...)); !bytes.Equal(got, want) {
+				rt.Fatalf("aescmac key=%x: Compute(%s) (len %d) = %x, RFC 4493 reference %x", keyBytes, hx(data), long, got, want)
+			}
+		}
+		evid.Case(fmt.Sprintf("xorend/aes%d/long%%16=%d%s", kl*8, long%16, sizeClass), true, evid.NewH().B(keyBytes).B(data).B(last).Sum(), func() any {
 			return map[string]any{"key": gen.Hex(keyBytes), "data": gen.Hex(data), "last": gen.Hex(last), "lengths": fmt.Sprintf("0..80, %d", long)}
 		})
 	})
@@ -523,6 +660,64 @@ func TestKWP(t *testing.T) {
 		back, err := w.Unwrap(append([]byte{}, got1...))
 		if err != nil || !bytes.Equal(back, payload) {
 			rt.Fatalf("%s: Unwrap(Wrap(x)) = %x (%v)", desc, back, err)
+		}
+		// The same KWP object, the caller's own buffers, results kept across later calls. C08 speaks
+		// about payloads and wrappings as byte strings: what Wrap / Unwrap returned for one of them stays
+		// that value when other inputs are processed afterwards, and Unwrap of the wrapping the caller
+		// holds is the payload every time it is asked.
+		other := append([]byte{}, payload...)
+		for i := range other {
+			other[i] ^= 0x5a
+		}
+		wantOther := sym.KWPWrap(kek, other)
+		gotOther, err := w.Wrap(other)
+		if err != nil || !bytes.Equal(gotOther, wantOther) {
+			rt.Fatalf("%s: Wrap of a second payload %x on the same object = %x (%v), RFC 5649 reference says %x", desc, other, gotOther, err, wantOther)
+		}
+		if !bytes.Equal(got1, want) || !bytes.Equal(got2, want) {
+			rt.Fatalf("%s: Wrap returned %x; after wrapping another payload (%x) on the same object the returned slices hold %x and %x", desc, want, other, got1, got2)
+		}
+		blob := append([]byte{}, want...)
+		u1, err := w.Unwrap(blob)
+		if err != nil || !bytes.Equal(u1, payload) {
+			rt.Fatalf("%s: Unwrap(reference wrapping %x) = %x (%v)", desc, want, u1, err)
+		}
+		if !bytes.Equal(blob, want) {
+			rt.Fatalf("%s: Unwrap accepted the wrapping %x and changed the caller's copy of it to %x", desc, want, blob)
+		}
+		u2, err := w.Unwrap(blob)
+		if err != nil || !bytes.Equal(u2, payload) {
+			rt.Fatalf("%s: the second Unwrap of the caller's wrapping %x = %x (%v); the first one returned the payload", desc, want, u2, err)
+		}
+		copy(blob, wantOther) // the caller reuses its buffer for the second wrapping (same length)
+		if !bytes.Equal(u1, payload) || !bytes.Equal(u2, payload) {
+			rt.Fatalf("%s: Unwrap returned the payload; after the caller overwrote its wrapping buffer with %x the returned slices hold %x and %x", desc, wantOther, u1, u2)
+		}
+		u3, err := w.Unwrap(blob)
+		if err != nil || !bytes.Equal(u3, other) {
+			rt.Fatalf("%s: the caller's buffer first held the wrapping %x (unwrapped correctly), then - overwritten in place - the wrapping %x of the payload %x: Unwrap on the same object = %x (%v)", desc, want, wantOther, other, u3, err)
+		}
+		if !bytes.Equal(u1, payload) || !bytes.Equal(u2, payload) {
+			rt.Fatalf("%s: Unwrap returned the payload; after unwrapping another wrapping (%x) on the same object the returned slices hold %x and %x", desc, wantOther, u1, u2)
+		}
+		// a wrapping that is refused (one bit of the reference wrapping changed; decided by the reference)
+		bad := append([]byte{}, want...)
+		badPos := rapid.IntRange(0, len(bad)-1).Draw(rt, "refusedpos")
+		bad[badPos] ^= 1 << uint(rapid.IntRange(0, 7).Draw(rt, "refusedbit"))
+		badValue := append([]byte{}, bad...)
+		if _, refErr := sym.KWPUnwrap(kek, bad); refErr != nil {
+			if out, err := w.Unwrap(bad); err == nil {
+				rt.Fatalf("%s: Tink unwraps %x (reference wrapping with byte %d changed) to %x, the reference rejects it", desc, badValue, badPos, out)
+			}
+			if !bytes.Equal(bad, badValue) {
+				rt.Fatalf("%s: Unwrap refused %x and changed the caller's copy of it to %x", desc, badValue, bad)
+			}
+			if out, err := w.Unwrap(bad); err == nil {
+				rt.Fatalf("%s: the second Unwrap of the refused blob %x succeeds with %x", desc, badValue, out)
+			}
+			if u4, err := w.Unwrap(append([]byte{}, want...)); err != nil || !bytes.Equal(u4, payload) {
+				rt.Fatalf("%s: after a refused Unwrap on the same object, Unwrap(reference wrapping) = %x (%v)", desc, u4, err)
+			}
 		}
 
 		// Candidates, decided by the reference:
